@@ -62,7 +62,10 @@ def flush(ctx, workers: int = 6) -> None:
 
     def one(job):
         name, header, typ, cases, checker, _r, _p, shard = job
-        return coqrun.run_cases(ctx.prop, name, header, typ, cases, checker, shard=shard, jobs=4)
+        # thorough: smaller shards and a generous per-shard limit (a loaded machine
+        # must not turn a slow coqc into a spurious "did not evaluate")
+        return coqrun.run_cases(ctx.prop, name, header, typ, cases, checker,
+                                shard=shard if ctx.quick else 1000, jobs=4, timeout=1800)
     with ThreadPoolExecutor(max_workers=workers) as ex:
         results = list(ex.map(one, jobs))
     for job, res in zip(jobs, results):
